@@ -374,9 +374,9 @@ Section ABS.
   | AbsM_nil : AbsM h [] []
   | AbsM_cons : forall k v p l pl, Abs h v p -> AbsM h l pl -> AbsM h ((k, v) :: l) ((k, p) :: pl).
 
-  Scheme Abs_ind' := Induction for Abs Sort Prop
-    with AbsL_ind' := Induction for AbsL Sort Prop
-    with AbsM_ind' := Induction for AbsM Sort Prop.
+  Scheme Abs_ind' := Minimality for Abs Sort Prop
+    with AbsL_ind' := Minimality for AbsL Sort Prop
+    with AbsM_ind' := Minimality for AbsM Sort Prop.
   Combined Scheme Abs_mutind from Abs_ind', AbsL_ind', AbsM_ind'.
 
   Lemma AbsL_F2 : forall h l pl, AbsL h l pl <-> Forall2 (Abs h) l pl.
@@ -401,10 +401,11 @@ Section ABS.
       (forall l pl, AbsL h l pl -> forall h', keeps (length h) h h' -> AbsL h' l pl) /\
       (forall l pl, AbsM h l pl -> forall h', keeps (length h) h h' -> AbsM h' l pl)).
     { intro h. apply Abs_mutind; intros; try (constructor; auto; fail).
-      - econstructor; eauto. rewrite (read_arr_keeps _ _ _ _ H0); auto. eapply read_arr_lt; eauto.
       - econstructor; eauto.
-        + rewrite (map_hdr_keeps _ _ _ _ H0); eauto. eapply map_hdr_lt; eauto.
-        + rewrite (read_kv_keeps _ _ _ _ H0); eauto. eapply read_kv_lt; eauto. }
+        match goal with K : keeps _ _ _ |- _ => rewrite (read_arr_keeps _ _ _ _ K); auto end. eapply read_arr_lt; eauto.
+      - match goal with K : keeps _ _ _ |- _ => econstructor; eauto;
+          [rewrite (map_hdr_keeps _ _ _ _ K); eauto; eapply map_hdr_lt; eauto
+          |rewrite (read_kv_keeps _ _ _ _ K); eauto; eapply read_kv_lt; eauto] end. }
     repeat split; intros h; destruct (X h) as (X1 & X2 & X3); eauto.
   Qed.
 
@@ -416,17 +417,23 @@ Section ABS.
     (forall l pl, AbsL h l pl -> forall pl', AbsL h l pl' -> pl = pl') /\
     (forall l pl, AbsM h l pl -> forall pl', AbsM h l pl' -> pl = pl').
   Proof.
-    intro h. apply Abs_mutind; intros.
-    - inversion H; auto.
-    - inversion H; auto.
-    - inversion H0; subst. f_equal; auto.
-    - inversion H0; subst. rewrite e in H4. inversion H4; subst. f_equal; auto.
-    - inversion H0; subst. f_equal; auto.
-    - inversion H0; subst. rewrite e in H3. inversion H3; subst. rewrite e0 in H4. inversion H4; subst. f_equal; auto.
-    - inversion H; auto.
-    - inversion H1; subst. f_equal; auto.
-    - inversion H; auto.
-    - inversion H1; subst. f_equal; auto. f_equal; auto.
+    intro h.
+    assert (same : forall {X} (a : option X) x y, a = Some x -> a = Some y -> x = y) by (intros; congruence).
+    apply Abs_mutind.
+    - intros z p' H; inversion H; auto.
+    - intros p' H; inversion H; auto.
+    - intros l pl HL IH p' H; inversion H; subst; f_equal; auto.
+    - intros s l pl Hok Hr HL IH p' H; inversion H; subst.
+      match goal with H2 : read_arr h s = Some ?b |- _ => tryif constr_eq b l then fail else (pose proof (same _ _ _ _ Hr H2); subst) end. f_equal; auto.
+    - intros l pl HL IH p' H; inversion H; subst; f_equal; auto.
+    - intros p s l pl Hh Hr HL IH p' H; inversion H; subst.
+      match goal with H2 : map_hdr h p = Some ?b |- _ => tryif constr_eq b s then fail else (pose proof (same _ _ _ _ Hh H2); subst) end.
+      match goal with H1 : read_kv h ?x = Some ?a, H2 : read_kv h ?x = Some ?b |- _ =>
+        tryif constr_eq a b then fail else (pose proof (same _ _ _ _ H1 H2); subst) end. f_equal; auto.
+    - intros pl' H; inversion H; auto.
+    - intros v p l pl HA IHA HL IHL pl' H; inversion H; subst. f_equal; auto.
+    - intros pl' H; inversion H; auto.
+    - intros k v p l pl HA IHA HL IHL pl' H; inversion H; subst. f_equal; auto. f_equal; auto.
   Qed.
 
   Lemma Abs_fun : forall h v p p', Abs h v p -> Abs h v p' -> p = p'.
